@@ -1,23 +1,42 @@
 (** C19 — no reloadable or remote input can crash the process.  Property
     theorems only; proofs are in C19/Proofs.v.
 
-    [no_fixes] is the tree as it is; each [fx_k] of a [fixes] record switches on
-    the candidate repair of finding C19-Fk (fixes/C19-Fk.diff). *)
+    The model is parametric in a record [f : fixes]: [all_fixes] is the tree as
+    it is now (after the `fix:` commits for C19-F1 … C19-F8, docs/FIXES_APPLIED.md),
+    [no_fixes] the pinned tree, kept to document the findings
+    (`…_pinned_refuted`).  A Go panic is an explicit [Panic site] outcome; on
+    the goroutines that run reloads and providers it is [ProcessExit] /
+    [RsExit] / [FsExit]. *)
 From HV Require Import Base.Prelude C19.Model C19.Proofs.
 
-(** Hot reload of a key store (jwt signer, TLS key store, http message
-    signatures), for every component, every applied set of repairs, every
-    previous state, every list of PEM blocks / parser answers / configured
-    key id: outside the inputs of the recorded findings the process does not
-    exit, and unless the reload succeeded the previous state stays in effect. *)
-Theorem C19_reload_total : forall c f st i,
+(** * Hot reload of a key store (jwt signer, TLS key store, http message signatures) *)
+
+(** The tree as it is: for every component, every previous state and EVERY
+    input (any list of PEM blocks with any parser answers, any chain
+    verification answers, any configured key id, missing file) the process
+    survives, and unless the reload succeeded the previous state stays in
+    effect.  No guard. *)
+Theorem C19_reload_total : forall c st i, spec_reload_ok st (on_changed c all_fixes st i).
+Proof. exact reload_total_now. Qed.
+Print Assumptions C19_reload_total.
+
+(** the same for any tree that has at least the four key-store repairs *)
+Theorem C19_reload_total_any_fixed : forall c f st i,
+  fx1 f = true -> fx2 f = true -> fx5 f = true -> fx6 f = true ->
+  spec_reload_ok st (on_changed c f st i).
+Proof. exact reload_total_fixed. Qed.
+Print Assumptions C19_reload_total_any_fixed.
+
+(** For ANY set of repairs (in particular the pinned tree): outside the inputs
+    of the findings the same holds … *)
+Theorem C19_reload_total_guarded : forall c f st i,
   guard_F1 c f i = false -> guard_F2 c f i = false ->
   guard_F5 c f i = false -> guard_F6 c f i = false ->
   spec_reload_ok st (on_changed c f st i).
 Proof. exact reload_total. Qed.
-Print Assumptions C19_reload_total.
+Print Assumptions C19_reload_total_guarded.
 
-(** the guards are exact: the process exits on precisely these inputs, at the site of the finding *)
+(** … and the guards are exact: the process exits on precisely these inputs, at the site of the finding *)
 Theorem C19_reload_exit_iff_guards : forall c f st i s,
   on_changed c f st i = ProcessExit s <->
   (s = SEntries0 /\ guard_F1 c f i = true) \/
@@ -27,47 +46,67 @@ Theorem C19_reload_exit_iff_guards : forall c f st i s,
 Proof. exact exit_iff_guards. Qed.
 Print Assumptions C19_reload_exit_iff_guards.
 
-Theorem C19_F1_refuted : exists c i, guard_F1 c no_fixes i = true /\ ~ spec_reload_ok st0 (on_changed c no_fixes st0 i).
+(** the repaired chain building terminates for every pool of certificates *)
+Theorem C19_find_chain_terminates : forall pool pub, find_chain true pool pub <> None.
+Proof. exact find_chain_fixed. Qed.
+Print Assumptions C19_find_chain_terminates.
+
+Theorem C19_F1_pinned_refuted : exists c i, guard_F1 c no_fixes i = true /\ ~ spec_reload_ok st0 (on_changed c no_fixes st0 i).
 Proof. exact F1_refuted. Qed.
-Print Assumptions C19_F1_refuted.
+Print Assumptions C19_F1_pinned_refuted.
 
-Theorem C19_F2_refuted : exists c i, guard_F2 c no_fixes i = true /\ ~ spec_reload_ok st0 (on_changed c no_fixes st0 i).
+Theorem C19_F2_pinned_refuted : exists c i, guard_F2 c no_fixes i = true /\ ~ spec_reload_ok st0 (on_changed c no_fixes st0 i).
 Proof. exact F2_refuted. Qed.
-Print Assumptions C19_F2_refuted.
+Print Assumptions C19_F2_pinned_refuted.
 
-Theorem C19_F5_refuted : exists i, guard_F5 HttpSig no_fixes i = true /\ ~ spec_reload_ok st0 (on_changed HttpSig no_fixes st0 i)
+Theorem C19_F5_pinned_refuted : exists i, guard_F5 HttpSig no_fixes i = true /\ ~ spec_reload_ok st0 (on_changed HttpSig no_fixes st0 i)
                                    /\ spec_reload_ok st0 (on_changed Signer no_fixes st0 i).
 Proof. exact F5_refuted. Qed.
-Print Assumptions C19_F5_refuted.
+Print Assumptions C19_F5_pinned_refuted.
 
-Theorem C19_F6_refuted : exists c i, guard_F6 c no_fixes i = true /\ ~ spec_reload_ok st0 (on_changed c no_fixes st0 i).
+Theorem C19_F6_pinned_refuted : exists c i, guard_F6 c no_fixes i = true /\ ~ spec_reload_ok st0 (on_changed c no_fixes st0 i).
 Proof. exact F6_refuted. Qed.
-Print Assumptions C19_F6_refuted.
+Print Assumptions C19_F6_pinned_refuted.
 
-(** Trust stores: NewTrustStoreFromPEMBytes panics exactly on the inputs of C19-F7 *)
+(** * Trust stores *)
+
+Theorem C19_truststore_total : forall strict i s, trust_store all_fixes strict i <> Panic s.
+Proof. exact trust_store_total_now. Qed.
+Print Assumptions C19_truststore_total.
+
+(** for any set of repairs NewTrustStoreFromPEMBytes panics exactly on the inputs of C19-F7 *)
 Theorem C19_truststore_panic_iff : forall f strict i s,
   trust_store f strict i = Panic s <-> (s = SNilBlock /\ guard_F7 f strict i = true).
 Proof. exact trust_store_panic_iff. Qed.
 Print Assumptions C19_truststore_panic_iff.
 
-Theorem C19_F7_refuted : exists strict i, guard_F7 no_fixes strict i = true /\ exists s, trust_store no_fixes strict i = Panic s.
+Theorem C19_F7_pinned_refuted : exists strict i, guard_F7 no_fixes strict i = true /\ exists s, trust_store no_fixes strict i = Panic s.
 Proof. exact F7_refuted. Qed.
-Print Assumptions C19_F7_refuted.
+Print Assumptions C19_F7_pinned_refuted.
 
-(** Rule sets, for every rule set (any number of rules, any steps, any value
-    trees), both modes, with or without default rule, every previous state:
-    if every step is well typed (mechanism-kind keys hold strings, `config` is
-    absent/null/a string-keyed map) — or, with the repair, for EVERY rule set —
-    and the collaborators taken as data (decoder, mechanism factory, matcher
-    construction) do not panic themselves, the provider goroutine survives and
-    a rejected rule set leaves the loaded rules as they were. *)
-Theorem C19_ruleset_total : forall f proxy def st e,
+(** * Rule sets *)
+
+(** The tree as it is, for every rule-set event: bytes rejected by the decoder,
+    a decoder panic (caught by the repaired parser), or any decoded rule set
+    (any number of rules, any steps, ANY value trees under any key), both modes,
+    with or without default rule, every previous state: if the collaborators
+    taken as data (mechanism factory, matcher construction, Rule.Hash) do not
+    panic themselves, the provider goroutine survives and a rejected rule set
+    leaves the loaded rules as they were.  No typing condition, no guard. *)
+Theorem C19_ruleset_total : forall proxy def st e,
+  (forall rs, ev_parse e = PParsed rs -> forallb oracle_total_rule rs = true) ->
+  spec_rs_ok st (process all_fixes proxy def st e).
+Proof. exact ruleset_total_now. Qed.
+Print Assumptions C19_ruleset_total.
+
+(** for any set of repairs: well-typed steps (or checked assertions) suffice *)
+Theorem C19_ruleset_total_typed : forall f proxy def st e,
   (fx3 f = true \/ ev_typed e = true) -> ev_oracle_total f e = true ->
   spec_rs_ok st (process f proxy def st e).
 Proof. exact ruleset_total. Qed.
-Print Assumptions C19_ruleset_total.
+Print Assumptions C19_ruleset_total_typed.
 
-(** the same with the exact guards of the two findings instead of the typing condition *)
+(** … and so do the exact guards of the two findings *)
 Theorem C19_ruleset_total_guarded : forall f proxy def st e,
   guard_F3 f proxy def e = false -> guard_F8 f proxy def e = false ->
   spec_rs_ok st (process f proxy def st e).
@@ -79,34 +118,38 @@ Theorem C19_F3_only_ill_typed : forall f proxy def e,
 Proof. exact guard_F3_only_ill_typed. Qed.
 Print Assumptions C19_F3_only_ill_typed.
 
-Theorem C19_F3_refuted : exists e, guard_F3 no_fixes false false e = true /\ ev_oracle_total no_fixes e = true /\
+Theorem C19_F3_pinned_refuted : exists e, guard_F3 no_fixes false false e = true /\ ev_oracle_total no_fixes e = true /\
   ~ spec_rs_ok ["old"%string] (process no_fixes false false ["old"%string] e).
 Proof. exact F3_refuted. Qed.
-Print Assumptions C19_F3_refuted.
+Print Assumptions C19_F3_pinned_refuted.
 
-Theorem C19_F8_refuted : exists e, guard_F8 no_fixes false false e = true /\
+Theorem C19_F8_pinned_refuted : exists e, guard_F8 no_fixes false false e = true /\
   ~ spec_rs_ok ["old"%string] (process no_fixes false false ["old"%string] e).
 Proof. exact F8_refuted. Qed.
-Print Assumptions C19_F8_refuted.
+Print Assumptions C19_F8_pinned_refuted.
 
-(** File-system provider: every fsnotify event, previous state, file
-    situation and processor answer *)
-Theorem C19_fs_total : forall f st e, guard_F4 f e = false -> spec_fs_ok st (fs_changed f st e).
-Proof. exact fs_total. Qed.
+(** * File-system provider: every fsnotify event, previous state, file situation and processor answer *)
+
+Theorem C19_fs_total : forall st e, spec_fs_ok st (fs_changed all_fixes st e).
+Proof. exact fs_total_now. Qed.
 Print Assumptions C19_fs_total.
+
+Theorem C19_fs_total_guarded : forall f st e, guard_F4 f e = false -> spec_fs_ok st (fs_changed f st e).
+Proof. exact fs_total. Qed.
+Print Assumptions C19_fs_total_guarded.
 
 Theorem C19_fs_exit_iff_guard : forall f st e s,
   fs_changed f st e = FsExit s <-> (s = SStatNil /\ guard_F4 f e = true).
 Proof. exact fs_exit_iff. Qed.
 Print Assumptions C19_fs_exit_iff_guard.
 
-Theorem C19_F4_refuted : exists e, guard_F4 no_fixes e = true /\ ~ spec_fs_ok (Some 1) (fs_changed no_fixes (Some 1) e).
+Theorem C19_F4_pinned_refuted : exists e, guard_F4 no_fixes e = true /\ ~ spec_fs_ok (Some 1) (fs_changed no_fixes (Some 1) e).
 Proof. exact F4_refuted. Qed.
-Print Assumptions C19_F4_refuted.
+Print Assumptions C19_F4_pinned_refuted.
 
-(** Request goroutines: a panic (e.g. the composite extractor on an empty
+(** * Request goroutines: a panic (e.g. the composite extractor on an empty
     strategy list, which panics exactly then) is answered by the recovery
-    middleware with a non-success status *)
+    middleware, never with a success status *)
 Theorem C19_request_panic_is_non_success : forall h,
   (exists status, recovery_mw h = status) /\ (forall k, h = Panicked k -> success (recovery_mw h) = false).
 Proof. exact request_panic_is_non_success. Qed.
@@ -117,15 +160,15 @@ Theorem C19_composite_extract_panic_iff : forall l s,
 Proof. exact composite_extract_panic_iff. Qed.
 Print Assumptions C19_composite_extract_panic_iff.
 
-(** non-vacuity *)
+(** * non-vacuity: a two-key store with a certificate chain reloads; a typed rule set is applied *)
 Example C19_reload_nonvacuous :
   let leaf := {| c_id := 5; c_pub := 1; c_subj := "leaf"; c_iss := "ca"; c_aki := "cafe"; c_ski := "" |} in
   let ca := {| c_id := 6; c_pub := 9; c_subj := "ca"; c_iss := "ca"; c_aki := ""; c_ski := "cafe" |} in
   let i := in_of "second" [BKey (Some (KSig ECDSA 256 1 "aa")) ""; BCert (Some leaf); BCert (Some ca);
                            BKey (Some (KSig RSA 3072 2 "bb")) "second"] in
-  guard_F1 Signer no_fixes i = false /\ guard_F2 Signer no_fixes i = false /\
-  guard_F5 Signer no_fixes i = false /\ guard_F6 Signer no_fixes i = false /\
-  on_changed Signer no_fixes st0 i =
+  on_changed Signer all_fixes st0 i =
     Reloaded {| st_kid := "second"; st_alg := "PS384"; st_pub := Some 2;
-                st_keys := [("aa", "ES256"); ("second", "PS384")]%string; st_chain := [] |}.
-Proof. exact reload_nonvacuous. Qed.
+                st_keys := [("aa", "ES256"); ("second", "PS384")]%string; st_chain := [] |} /\
+  on_changed Tls all_fixes st0 (in_of "" [BKey (Some (KSig ECDSA 256 1 "aa")) ""; BCert (Some leaf); BCert (Some ca)]) =
+    Reloaded {| st_kid := ""; st_alg := ""; st_pub := Some 1; st_keys := []; st_chain := [5; 6] |}.
+Proof. exact reload_nonvacuous_now. Qed.
